@@ -509,17 +509,19 @@ def c23_scenario(rng):
                 # suspend / cancel / migrate only what cannot have failed meanwhile (Activity::suspend() on a failed exec crashes in
                 # ActivityImpl::suspend, null model_action_: not an energy matter)
                 r = rng.random() if h["name"] not in volatile else 1.0
+                # ... nor ended: at full speed the exec lasts `dur`; the control comes strictly before that (suspending an exec that
+                # ended at this very date crashes the same way)
+                t2 = grid.date(t, t + dur - grid.step) if dur >= 2 * grid.step else t + dur
+                if t2 >= t + dur:
+                    r = 1.0
                 if r < 0.2:
-                    t2 = grid.date(t, t + 4 * grid.step)
                     t3 = grid.date(t2, t2 + 4 * grid.step)
                     ops += [["until", t2], ["xsuspend", i], ["until", t3], ["xresume", i]]
                     t = t3
                 elif r < 0.3:
-                    t2 = grid.date(t, t + 4 * grid.step)
                     ops += [["until", t2], ["xcancel", i]]
                     t = t2
                 elif r < 0.42 and len(eh) > 1:
-                    t2 = grid.date(t, t + 4 * grid.step)
                     other = [x for x in eh if x is not h][0]
                     if thr == 1 and other["name"] not in volatile:     # (ExecImpl::migrate restarts the exec on ONE core of the destination)
                         ops += [["until", t2], ["xmigrate", i, other["name"]]]
